@@ -4,8 +4,10 @@ package consumer
 
 import (
 	"regexp"
+	"time"
 
 	"github.com/IBM/sarama"
+	"github.com/linkedin/go-zk"
 	"go.uber.org/zap"
 
 	"github.com/linkedin/Burrow/core/protocol"
@@ -38,4 +40,15 @@ func (module *KafkaClient) VerifProcessMessage(msg *sarama.ConsumerMessage) {
 // VerifAcceptConsumerGroup calls acceptConsumerGroup.
 func (module *KafkaClient) VerifAcceptConsumerGroup(group string) bool {
 	return module.acceptConsumerGroup(group)
+}
+
+// VerifNewKafkaZkClient builds a KafkaZkClient through its real Configure (allow/deny lists, cluster, path under the
+// given viper root) whose Start will use the given Zookeeper client and session-event channel instead of dialling.
+func VerifNewKafkaZkClient(app *protocol.ApplicationContext, name, configRoot string, zkc protocol.ZookeeperClient, events <-chan zk.Event) *KafkaZkClient {
+	module := &KafkaZkClient{App: app, Log: zap.NewNop()}
+	module.Configure(name, configRoot)
+	module.connectFunc = func([]string, time.Duration, *zap.Logger) (protocol.ZookeeperClient, <-chan zk.Event, error) {
+		return zkc, events, nil
+	}
+	return module
 }
